@@ -3,9 +3,9 @@
    Modelled code (pinned tree):
      internal/dag/scheduler/scheduler.go:323-337   Scheduler.Status           -> overall
      internal/agent/agent.go:213-253               Agent.Status (snapshot)     -> snap_of
-     internal/agent/agent.go:98-210                Agent.Run: history Open, S0, socket bind, the two snapshot
-                                                   goroutines (:164-186), Schedule, final status, finished flag,
-                                                   deferred socket shutdown and history Close   -> astep
+     internal/agent/agent.go:98-226                Agent.Run: history Open, S0, socket bind, the two snapshot
+                                                   goroutines, Schedule, final status + finished flag (writeStatus, under
+                                                   statusLock), deferred socket shutdown and history Close   -> astep
      internal/persistence/jsondb/jsondb.go         Write (append a line), Close/Compact (read last line, create the
                                                    twin _c.dat, write, unlink the original), ReadStatusToday/ParseFile
                                                    (last parseable line of the newest file, EOF on an empty file) -> persisted
@@ -182,23 +182,25 @@ Definition snap_of (s : sched) : snap := mkSnap (ov_of s) (tbl s).
 
 Inductive sockst := SockAbsent | SockStale | SockLive.
 
+(* Agent.writeStatus (since 7f2c2d0): lock statusLock; Status(); if finished { unlock; return }; if final { finished = true };
+   historyStore.Write; unlock.  Agent.Status itself is NOT atomic: it first asks the scheduler for the overall status, later
+   copies the node table; the scheduler may move in between (also while statusLock is held - it does not stop the scheduler).
+   A snapshot thread therefore passes through  ...Locked (lock taken)  ->  ...Ov o (overall read)  ->  ...Computed s (table
+   copied)  and then appends (or not, if the finished flag is set) and releases the lock.  The finished flag is set by the main
+   thread together with its final append, i.e. it is `5 <= mrank`. *)
 Inductive mphase :=
 | MInit | MOpened | MS0 | MBound
-| MFinalComputed (s : snap) | MFinalWritten | MFinished | MUnbound
+| MFinalLocked | MFinalComputed (s : snap) | MFinalWritten | MFinished | MUnbound
 | MCompactRead (s : snap) | MCompactCreated (s : snap) | MCompactWritten | MCompactDone | MClosed.
 
-(* Agent.Status is NOT atomic: it first asks the scheduler for the overall status (agent.go:218), later copies the node table
-   (:231); the scheduler may move in between.  The two snapshot goroutines therefore pass through `...Ov o` (overall read)
-   before `...Computed s` (table copied).  For the main thread's two snapshots nothing can move in between (S0: Schedule
-   has not started; final: Schedule has returned), they are one label. *)
-Inductive fsphase := FSleep | FChecked | FOv (o : ostatus) | FComputed (s : snap) | FGone.
-Inductive cphase := CIdle | CGot | COv (o : ostatus) | CComputed (s : snap).
+Inductive fsphase := FSleep | FLocked | FOv (o : ostatus) | FComputed (s : snap) | FGone.
+Inductive cphase := CIdle | CGot | CLocked | COv (o : ostatus) | CComputed (s : snap).
 
 Record astate := mkA {
   sc : sched;
   mp : mphase;
-  fs : fsphase;            (* the "first status" goroutine (agent.go:178-186) *)
-  cp : cphase;             (* the goroutine ranging over `done` (agent.go:164-174) *)
+  fs : fsphase;            (* the "first status" goroutine *)
+  cp : cphase;             (* the goroutine ranging over `done` *)
   file : list snap;        (* lines of the run's .dat, oldest first *)
   orig : bool;             (* the .dat exists *)
   cfile : option (list snap);  (* the compaction twin _c.dat *)
@@ -207,7 +209,7 @@ Record astate := mkA {
 
 Definition mrank (m : mphase) : nat :=
   match m with
-  | MInit => 0 | MOpened => 1 | MS0 => 2 | MBound => 3 | MFinalComputed _ => 4 | MFinalWritten => 5 | MFinished => 6
+  | MInit => 0 | MOpened => 1 | MS0 => 2 | MBound => 3 | MFinalLocked => 4 | MFinalComputed _ => 4 | MFinalWritten => 5 | MFinished => 6
   | MUnbound => 7 | MCompactRead _ => 8 | MCompactCreated _ => 9 | MCompactWritten => 10 | MCompactDone => 11 | MClosed => 12
   end.
 
@@ -215,8 +217,8 @@ Inductive alabel :=
 | LOpen | LWriteS0 | LBind
 | LSched (l : slabel)
 | LFsWake | LFsOv | LFsTbl | LFsAppend
-| LNotify | LCOv | LCTbl | LCAppend
-| LFinalCompute | LFinalAppend | LFinish | LUnbind
+| LNotify | LCLock | LCOv | LCTbl | LCAppend
+| LFinalLock | LFinalCompute | LFinalAppend | LFinish | LUnbind
 | LCompactRead | LCompactSkip | LCompactCreate | LCompactWrite | LCompactUnlink | LCloseWriter.
 
 (* writer.write under the writer's lock (writer.go:52-80): refused once closed; after Compact has unlinked the original
@@ -235,6 +237,14 @@ Definition with_cp (st : astate) (c : cphase) : astate :=
 Definition with_file (st : astate) (f : list snap) : astate :=
   mkA (sc st) (mp st) (fs st) (cp st) f (orig st) (cfile st) (wclosed st) (sock st).
 
+(* statusLock is held by the thread that is inside writeStatus *)
+Definition locked (st : astate) : bool :=
+  match fs st with FLocked | FOv _ | FComputed _ => true | _ => false end ||
+  match cp st with CLocked | COv _ | CComputed _ => true | _ => false end ||
+  match mp st with MFinalLocked | MFinalComputed _ => true | _ => false end.
+(* a.finished: set by the main thread's final writeStatus *)
+Definition finished (st : astate) : bool := 5 <=? mrank (mp st).
+
 Definition last_line (l : list snap) : option snap :=
   match rev l with [] => None | x :: _ => Some x end.
 
@@ -252,29 +262,36 @@ Definition astep (st : astate) (l : alabel) : option astate :=
   | LSched a => match mp st with
                 | MBound => match sstep (sc st) a with Some s' => Some (with_sc st s') | None => None end
                 | _ => None end
-  (* the first-status goroutine: sleep 100 ms; if finished { return }; Status(); Write *)
+  (* the first-status goroutine: sleep 100 ms; writeStatus(false) *)
   | LFsWake => match fs st with
-               | FSleep => if 3 <=? mrank (mp st)
-                           then Some (with_fs st (if 6 <=? mrank (mp st) then FGone else FChecked)) else None
+               | FSleep => if (3 <=? mrank (mp st)) && negb (locked st) then Some (with_fs st FLocked) else None
                | _ => None end
-  | LFsOv => match fs st with FChecked => Some (with_fs st (FOv (ov_of (sc st)))) | _ => None end
+  | LFsOv => match fs st with FLocked => Some (with_fs st (FOv (ov_of (sc st)))) | _ => None end
   | LFsTbl => match fs st with FOv o => Some (with_fs st (FComputed (mkSnap o (tbl (sc st))))) | _ => None end
-  | LFsAppend => match fs st with FComputed s => Some (with_fs (with_file st (append st s)) FGone) | _ => None end
-  (* for node := range done { Status(); Write } *)
+  | LFsAppend => match fs st with
+                 | FComputed s => Some (with_fs (if finished st then st else with_file st (append st s)) FGone)
+                 | _ => None end
+  (* for node := range done { writeStatus(false); ... } *)
   | LNotify => match cp st, recv (sc st) with
                | CIdle, Some s' => if 3 <=? mrank (mp st) then Some (with_cp (with_sc st s') CGot) else None
                | _, _ => None end
-  | LCOv => match cp st with CGot => Some (with_cp st (COv (ov_of (sc st)))) | _ => None end
+  | LCLock => match cp st with CGot => if negb (locked st) then Some (with_cp st CLocked) else None | _ => None end
+  | LCOv => match cp st with CLocked => Some (with_cp st (COv (ov_of (sc st)))) | _ => None end
   | LCTbl => match cp st with COv o => Some (with_cp st (CComputed (mkSnap o (tbl (sc st))))) | _ => None end
-  | LCAppend => match cp st with CComputed s => Some (with_cp (with_file st (append st s)) CIdle) | _ => None end
-  (* the main thread after Schedule has returned *)
-  | LFinalCompute => match mp st, sph (sc st) with
-                     | MBound, SReturned => Some (with_mp st (MFinalComputed (snap_of (sc st))))
-                     | _, _ => None end
+  | LCAppend => match cp st with
+                | CComputed s => Some (with_cp (if finished st then st else with_file st (append st s)) CIdle)
+                | _ => None end
+  (* the main thread after Schedule has returned: writeStatus(true) *)
+  | LFinalLock => match mp st, sph (sc st) with
+                  | MBound, SReturned => if negb (locked st) then Some (with_mp st MFinalLocked) else None
+                  | _, _ => None end
+  | LFinalCompute => match mp st with
+                     | MFinalLocked => Some (with_mp st (MFinalComputed (snap_of (sc st))))
+                     | _ => None end
   | LFinalAppend => match mp st with
-                    | MFinalComputed s => Some (with_mp (with_file st (append st s)) MFinalWritten)
+                    | MFinalComputed s => Some (with_mp (with_file st (append st s)) MFinalWritten)   (* finished := true; Write *)
                     | _ => None end
-  | LFinish => match mp st with MFinalWritten => Some (with_mp st MFinished) | _ => None end
+  | LFinish => match mp st with MFinalWritten => Some (with_mp st MFinished) | _ => None end      (* report, mail *)
   | LUnbind => match mp st with
                | MFinished => Some (mkA (sc st) MUnbound (fs st) (cp st) (file st) (orig st) (cfile st) (wclosed st) SockAbsent)
                | _ => None end
@@ -383,16 +400,4 @@ Fixpoint no_gap_snapshot (st : astate) (ls : list alabel) : bool :=
   | [] => true
   | l :: r => (negb (computes l) || negb (gap (sc st))) &&
               match astep st l with Some st' => no_gap_snapshot st' r | None => true end
-  end.
-
-(* no snapshot computed earlier is still waiting for the writer's lock when Schedule returns (F8b/F8c) *)
-Definition quiet (st : astate) : bool :=
-  match fs st with FComputed _ | FOv _ => false | _ => true end &&
-  match cp st with CComputed _ | COv _ => false | _ => true end.
-
-Fixpoint quiet_at_return (st : astate) (ls : list alabel) : bool :=
-  match ls with
-  | [] => true
-  | l :: r => match l with LSched AReturn => quiet st | _ => true end &&
-              match astep st l with Some st' => quiet_at_return st' r | None => true end
   end.
